@@ -32,6 +32,7 @@ type Case struct {
 	Opt   []rm.Slot `json:"opt"`
 	Via   string    `json:"via"`
 	Pre   int       `json:"pre"`
+	Hz    bool      `json:"hz"` // puree: the message's outer header view has its first octet (EPD) cleared before encoding
 	Fam   string    `json:"fam"`
 	Mt    int       `json:"mt"`
 	Count int       `json:"count"`
@@ -397,15 +398,27 @@ type PureE struct {
 	After  rm.Proj   `json:"after"`  // message projection after encoding
 	Again  []int     `json:"again"`  // a second encoding into a fresh buffer
 	Held   []int     `json:"held"`   // the first PlainNasEncode result, read again after a DIFFERENT message was encoded
+	Hdr0   []int     `json:"hdr0"`   // the message's outer header view before any encoding
 }
 
 func pat(i int) byte { return byte((i*37 + 11) % 256) }
 
 func runPureE(c Case) PureE {
-	e := PureE{Op: "PureE", M: c.M, Mand: c.Mand, Opt: c.Opt, Pre: c.Pre, Prefix: []int{}, Tail: []int{}, Again: []int{}, Held: []int{}, After: rm.EmptyProj()}
+	e := PureE{Op: "PureE", M: c.M, Mand: c.Mand, Opt: c.Opt, Pre: c.Pre, Prefix: []int{}, Tail: []int{}, Again: []int{}, Held: []int{}, Hdr0: []int{}, After: rm.EmptyProj()}
 	m, _, err := rm.Build(c.M, c.Mand, c.Opt)
 	if err != nil {
 		ev.Fatal("%v", err)
+	}
+	if c.Hz { // a message assembled by hand: only the message type of the outer header view is set
+		if m.GmmMessage != nil {
+			m.GmmMessage.GmmHeader.Octet[0] = 0
+		} else if m.GsmMessage != nil {
+			m.GsmMessage.GsmHeader.Octet[0] = 0
+		}
+	}
+	e.Hdr0 = rm.Project(m).Hdr
+	if e.Hdr0 == nil {
+		e.Hdr0 = []int{}
 	}
 	pi := ev.Guard(func() {
 		pre := make([]byte, c.Pre)
